@@ -259,5 +259,40 @@ BigValues(n) ==
     [] n = "Q-extbig" -> {<<Pres(I(7)), Pres(Pat(k))>> : k \in {16383, 16384, 49153}}
     [] n = "L-bool-big" -> {[i \in 1..k |-> i % 3 = 0] : k \in {16384, 65536}}
 
-Modules == <<ModExplicit, ModAutomatic, ModImplicit, ModBig>>
+\* ---- constraint expression trees in the codecs (C09): set arithmetic, serial application,
+\* subtype chains through references, extension markers, 32 / 64-bit boundary values
+V(x) == BV(x)
+ConstraintDefs == <<
+  D("C-union", TInt(CUnion(R(1, 3), R(8, 10)))),
+  D("C-union-adj", TInt(CUnion(R(0, 3), R(4, 7)))),
+  D("C-union-over", TInt(CUnion(R(0, 5), R(3, 9)))),
+  D("C-union-single", TInt(CUnion(CVal(BI(1)), CUnion(CVal(BI(2)), CVal(BI(300)))))),
+  D("C-inter", TInt(CInter(CRange(BMin, BI(5)), CRange(BI(3), BMax)))),
+  D("C-inter2", TInt(CInter(R(0, 100), R(50, 200)))),
+  D("C-except", TInt(CExcept(R(1, 10), CVal(BI(5))))),
+  D("C-except-edge", TInt(CExcept(R(0, 7), CVal(BI(7))))),
+  D("C-serial", TInt(CSerial(R(0, 100), R(5, 10)))),
+  D("C-serial-minmax", TInt(CSerial(R(0, 100), CRange(BMin, BI(10))))),
+  D("C-serial-ext", TInt(CSerial(R(0, 100), CExt(R(5, 10))))),
+  D("C-ext-serial", TInt(CSerial(CExt(R(0, 100)), R(5, 10)))),
+  D("C-base", TInt(R(0, 255))),
+  D("C-chain1", TRefC("C-base", R(10, 20))),
+  D("C-chain2", TRefC("C-chain1", CRange(BMin, BI(15)))),
+  D("C-chain3", TRefC("C-chain2", CExt(R(11, 12)))),
+  D("C-i64min-union", TInt(CUnion(CVal(V(INeg(IPow2(63)))), R(5, 10)))),
+  D("C-i64-full", TInt(CRange(V(INeg(IPow2(63))), V(IDec(IPow2(63)))))),
+  D("C-i32-edge", TInt(CUnion(CVal(V(Int32Min)), CVal(V(Int32Max))))),
+  D("C-neg-union", TInt(CUnion(R(-129, -128), R(126, 127)))),
+  D("C-pow2", TInt(CUnion(R(0, 0), CVal(BI(255))))),
+  D("C-pow2p", TInt(CUnion(R(0, 0), CVal(BI(256))))),
+  D("C-u16-union", TInt(CUnion(R(0, 10), CVal(BI(65535))))),
+  D("C-u16p-union", TInt(CUnion(R(0, 10), CVal(BI(65536))))),
+  D("C-size-union", TOctets(CUnion(R(1, 2), CVal(BI(4))))),
+  D("C-size-inter", TOctets(CInter(R(0, 10), R(2, 3)))),
+  D("C-size-serial", TStr("IA5", CSerial(R(0, 10), R(2, 3)), <<>>)),
+  D("C-size-except", TOctets(CExcept(R(1, 4), CVal(BI(4))))),
+  D("C-seqof-union", TSeqOf(TBool, CUnion(R(1, 1), R(3, 4)))) >>
+ModConstraints == MkMod("VC", "EXPLICIT", ConstraintDefs)
+
+Modules == <<ModExplicit, ModAutomatic, ModImplicit, ModBig, ModConstraints>>
 =============================================================================
